@@ -36,8 +36,8 @@ fn spaces(tier: Tier) -> &'static Spaces {
     static Q: OnceLock<Spaces> = OnceLock::new();
     static T: OnceLock<Spaces> = OnceLock::new();
     match tier {
-        Tier::Quick => Q.get_or_init(|| Spaces { t1: corpus::t1(), t3: corpus::t3(corpus::t3_default(4)), t4: corpus::t4(6), t5: corpus::t5(4), t6: corpus::t6() }),
-        Tier::Thorough => T.get_or_init(|| Spaces { t1: corpus::t1(), t3: corpus::t3(corpus::t3_default(5)), t4: corpus::t4(8), t5: corpus::t5(6), t6: corpus::t6() }),
+        Tier::Quick => Q.get_or_init(|| Spaces { t1: corpus::t1(), t3: corpus::t3(corpus::t3_default(4)), t4: corpus::t4(5), t5: corpus::t5(4), t6: corpus::t6() }),
+        Tier::Thorough => T.get_or_init(|| Spaces { t1: corpus::t1(), t3: corpus::t3(corpus::t3_default(5)), t4: corpus::t4(7), t5: corpus::t5(6), t6: corpus::t6() }),
     }
 }
 
